@@ -108,6 +108,20 @@ pub fn check_one(oh_plain: &OpeningHours, it: &Item, c: &Ctx, p: &Pointwise, b: 
         return false;
     }
     let nc = got.1;
+    // the context reached the other way round — bound first, locale attached afterwards — is the
+    // same context: both builders return "this context with one component replaced"
+    let other_way = oh_plain.clone().with_context(c.real.clone().approx_bound_interval_size(b).with_locale(opening_hours::localization::NoLocation));
+    match catch(|| other_way.next_change(t)) {
+        Ok(x) if x == nc => {}
+        Ok(x) => {
+            acc.violate(viol("bound_lost_by_builder_order", it, c, b, t, format!("context.approx_bound_interval_size(B).with_locale(l): next_change = {:?}; context.with_locale(l).approx_bound_interval_size(B): {:?} (exact answer {:?})", x.map(fmt_dt), nc.map(fmt_dt), exact.map(fmt_dt))));
+            return false;
+        }
+        Err(pi) => {
+            acc.violate(viol("panic_with_bound", it, c, b, t, format!("panicked: {} at {}", pi.msg, pi.loc)));
+            return false;
+        }
+    }
     match (nc, exact) {
         (Some(x), Some(ex)) if x == ex => {
             // exact answer: allowed in every case except when it lies more than B ahead
